@@ -340,9 +340,34 @@ def check_order(chk, prog, env):
                  total, bad, floor=3)
 
 
+def check_documented_table(chk, prog, env):
+    """self-consistency: the oracle used for the setkey table is the table documented at jwt_builder_setkey in include/jwt.h"""
+    import os, re
+    txt = open(os.path.join(prog.repo, 'include', 'jwt.h')).read()
+    rows = re.findall(r'\*\s+``(alg-A|alg-B|none|NULL)``\s*\|\s*``(alg-A|alg-B|none|NULL)``\s*\|\s*\\emoji\s+:(\w+):', txt)
+    if len(rows) < 6:
+        raise AnalysisBroken('documented setkey table not found in include/jwt.h (%d rows)' % len(rows))
+    A, B, NONE = env.alg_val['RS256'], env.alg_val['ES384'], env.alg_val['none']
+    val = {'alg-A': A, 'alg-B': B, 'none': NONE}
+    n = 0
+    bad = 0
+    for alg, key, res in rows[:6]:
+        n += 1
+        kalg = None if key == 'NULL' else val[key]
+        want = res in ('white_check_mark', 'warning')
+        got = T.setkey_oracle(env, 'checker', val[alg], kalg, 1)
+        if got != want:
+            bad += 1
+            chk.add(Finding('C02.documented-table', 'include/jwt.h', 'jwt_builder_setkey', 'row[%s/%s]' % (alg, key),
+                            'documentation says (%s, %s) -> %s; the oracle table of this check says %s' % (alg, key, res, 'admit' if got else 'refuse')))
+    chk.rule('C02.documented-table', 'the oracle of the setkey rule agrees with the six documented rows in include/jwt.h', n, bad, floor=6)
+
+
 def run(chk, prog, tier):
     env = Env(prog)
     check_setkey(chk, prog, env)
+    if tier == 'thorough':
+        check_documented_table(chk, prog, env)
     check_config_post(chk, prog, env, thorough=(tier == 'thorough'))
     check_names(chk, prog, env, thorough=(tier == 'thorough'))
     check_gate(chk, prog, env)
